@@ -18,8 +18,9 @@ def run_w(jobs, hashseed=0, timeout=1200):
 class WTable:
     """evaluates Coq expressions over named machines; exprs are added with a key"""
 
-    def __init__(self, ctx, stream):
+    def __init__(self, ctx, stream, extra_imports=""):
         self.ctx, self.stream = ctx, stream
+        self.imports = WIMPORTS + ("\n" + extra_imports if extra_imports else "")
         self.defs = []
         self.exprs = []
         self.keys = {}
@@ -40,7 +41,7 @@ class WTable:
             self.exprs.append(expr)
 
     def eval(self, kind="qc"):
-        self.vals = coq_eval_values(self.ctx, self.stream, WIMPORTS, self.defs, self.exprs, kind=kind, shard=120) if self.exprs else []
+        self.vals = coq_eval_values(self.ctx, self.stream, self.imports, self.defs, self.exprs, kind=kind, shard=120) if self.exprs else []
         return self
 
     def get(self, key):
